@@ -3,6 +3,7 @@ CONSTANTS
   Langs = {"c", "cpp"}
   BaseSet = "families"
   MaxMut = 1
+  MinMut = 0
   MaxBoth = 1
   Star = FALSE
   HashBits = 32
